@@ -75,7 +75,7 @@ def confirm(pid, k):
         if (l.startswith('cp ') or l.startswith('mkdir ')) and l not in setup and 'patch.diff' not in l:
             setup.append(l)
     cargo_lines = [l for l in lines if re.search(r'\bcargo\b', l) and 'fuzz' not in l]
-    demo_cmds = [l for l in cargo_lines if ('--test ' in l or '--example' in l or 'cargo run' in l or '--bin' in l) and '--no-fail-fast' not in l]
+    demo_cmds = [l for l in cargo_lines if ('--test ' in l or '--example' in l or 'cargo run' in l or '--bin' in l or 'cargo check' in l) and '--no-fail-fast' not in l]
     if not demo_cmds:
         print('RUN.md: no demonstration command found; confirm by hand')
         return 2
